@@ -71,7 +71,7 @@ check)
 	ID="${2:?property id}"
 	TIER="${3:-${VERIF_TIER:-quick}}"
 	if needs_race "$ID"; then build race; else build plain; fi
-	"$SCRATCH/bin/verif" check "$ID" --tier "$TIER"
+	"$SCRATCH/bin/verif" check "$ID" --tier "$TIER" ${VERIF_WORKERS:+--workers "$VERIF_WORKERS"}
 	exit $?
 	;;
 replay)
